@@ -39,6 +39,8 @@ type c06Op struct {
 type c06Case struct {
 	Cart uint8   `json:"cart"`
 	Ops  []c06Op `json:"ops"`
+	// CGB: cartridge header byte 0143 (00, 80 "colour enhanced", C0 "colour only"): a DMG runs all of them the same
+	CGB uint8 `json:"cgb,omitempty"`
 }
 
 type c06Reg struct {
@@ -289,11 +291,11 @@ func c06Run(c c06Case) (sig string, err error) {
 	return sig, err
 }
 
-var c06ROMs = map[uint8][]byte{}
+var c06ROMs = map[[2]uint8][]byte{}
 
-// c06ROM returns the (cached, never modified) image for a cartridge type.
-func c06ROM(cart uint8) []byte {
-	rom, ok := c06ROMs[cart]
+// c06ROM returns the (cached, never modified) image for a cartridge type and colour flag.
+func c06ROM(cart, cgb uint8) []byte {
+	rom, ok := c06ROMs[[2]uint8{cart, cgb}]
 	if !ok {
 		switch cart {
 		case 0x00:
@@ -303,23 +305,24 @@ func c06ROM(cart uint8) []byte {
 		default:
 			rom = machine.MakeROM(0x1b, 1, 3)
 		}
-		c06ROMs[cart] = rom
+		rom[0x143] = cgb
+		c06ROMs[[2]uint8{cart, cgb}] = rom
 	}
 	return rom
 }
 
 func c06RunInner(c c06Case, ctx *c06Ctx) (sig string, err error) {
 	defer vf.Recover(&sig, &err)
-	if c.Cart != 0x00 && c.Cart != 0x03 && c.Cart != 0x1b {
-		return "bad-case", fmt.Errorf("cart %02x outside the domain", c.Cart)
+	if (c.Cart != 0x00 && c.Cart != 0x03 && c.Cart != 0x1b) || (c.CGB != 0 && c.CGB != 0x80 && c.CGB != 0xc0) {
+		return "bad-case", fmt.Errorf("cart %02x / colour flag %02x outside the domain", c.Cart, c.CGB)
 	}
-	hw := machine.NewHW(c06ROM(c.Cart), nil, false)
+	hw := machine.NewHW(c06ROM(c.Cart, c.CGB), nil, false)
 	mp := hw.Mp
 	m := c06NewModel()
 	// LY is read-only: a store to it is a no-op. A twin machine gets the same history without those stores; once a
 	// machine cycle has elapsed after a store, LY and STAT must read the same on both (within that very cycle a
 	// guest cannot read, and what LY shows there is not asserted).
-	twin := machine.NewHW(c06ROM(c.Cart), nil, false)
+	twin := machine.NewHW(c06ROM(c.Cart, c.CGB), nil, false)
 	sinceLYStore := -1 // machine cycles since the last store to LY (-1: none yet)
 	for i, op := range c.Ops {
 		ctx.op, ctx.step = op, i
@@ -550,7 +553,7 @@ func c06SweepOps(a uint16, v uint8) []c06Op {
 // power-on (the LCD is switched off first where the addresses need it). I/O
 // registers are swept one address per machine, memory in chunks.
 func c06SweepCase(a uint16, n int, v uint8) c06Case {
-	cas := c06Case{Cart: []uint8{0x00, 0x03, 0x1b}[int(a>>6)%3]}
+	cas := c06Case{Cart: []uint8{0x00, 0x03, 0x1b}[int(a>>6)%3], CGB: []uint8{0x00, 0x80, 0xc0, 0x00}[int(v>>1)%4]}
 	if a >= 0x8000 && a < 0xa000 || a >= 0xfe00 && a < 0xff00 {
 		cas.Ops = append(cas.Ops, c06Op{K: "w", A: 0xff40, V: 0x11})
 	}
@@ -565,7 +568,7 @@ func c06IsIO(a int) bool { return a >= 0xff00 && a < 0xff80 || a == 0xffff }
 func TestC06(t *testing.T) {
 	c := vf.New(t, "C06", "exhaustive single-write sweep: every I/O address FF00-FF7F and FFFF x all 256 values, each on a machine fresh from power-on; every memory address 0000-FEFF and FF80-FFFE x {00,FF,55,AA,walking bit} (quick) / all 256 values (thorough) in chunks of 64 addresses per fresh machine, "+
 		"each read before the write, written, read back through the address and through its mirror; plus rapid sequences of write/read/run-cycles/place-timer-counter operations over the whole address space with a boundary-weighted address generator and small per-region address pools, "+
-		"on ROM-only, MBC1+RAM and MBC5+RAM cartridges, VRAM/OAM operations only with the LCD off and every DMA run to completion. Non-trivial: a checked read whose predicted value depends on an earlier write in the same sequence, a read of a constant region after a write to it, "+
+		"on ROM-only, MBC1+RAM and MBC5+RAM cartridges (header colour flag 00, 80 or C0: a DMG treats them alike), VRAM/OAM operations only with the LCD off and every DMA run to completion. Non-trivial: a checked read whose predicted value depends on an earlier write in the same sequence, a read of a constant region after a write to it, "+
 		"or a write to LY/DIV of a value other than the current one and 0. Distinct = hash of the case; sweep cases are distinct by construction and counted per (address, value).")
 	defer c.Flush()
 	c.RunReplays()
@@ -660,7 +663,7 @@ func c06Minimise(cas c06Case, sig string, err error) (c06Case, error) {
 	for again := true; again; {
 		again = false
 		for i := len(cas.Ops) - 1; i >= 0; i-- {
-			try := c06Case{Cart: cas.Cart, Ops: append(append([]c06Op{}, cas.Ops[:i]...), cas.Ops[i+1:]...)}
+			try := c06Case{Cart: cas.Cart, CGB: cas.CGB, Ops: append(append([]c06Op{}, cas.Ops[:i]...), cas.Ops[i+1:]...)}
 			if s, e := c06Run(try); e != nil && s == sig {
 				cas, err, again = try, e, true
 			}
@@ -747,9 +750,15 @@ func c06GenCase(rt *rapid.T) c06Case {
 		case 9, 10, 11:
 			w := writeGen.Draw(rt, "w")
 			return []c06Op{w, {K: "r", A: alias(rt, w.A)}}
-		case 12, 13:
+		case 12:
 			w := writeGen.Draw(rt, "w")
 			return []c06Op{w, writeGen.Draw(rt, "w2"), {K: "r", A: alias(rt, w.A)}}
+		case 13:
+			// a store to an address the DMG leaves unmapped (where a Game Boy Color has its bank, speed and palette
+			// registers) between a write and a read of a plain location: nothing may move
+			w := c06Op{K: "w", A: uint16(rapid.SampledFrom([]int{0x8000 + 0x123, 0xc000, 0xc123, 0xd000, 0xd123, 0xdfff, 0xf123, 0xff80}).Draw(rt, "plain")), V: rapid.Byte().Draw(rt, "pv")}
+			u := uint16(rapid.SampledFrom([]int{0xff70, 0xff70, 0xff4f, 0xff4d, 0xff4c, 0xff50, 0xff51, 0xff55, 0xff56, 0xff68, 0xff69, 0xff6a, 0xff6b, 0xff6c, 0xff72, 0xff75, 0xff7f, 0xff03, 0xff08, 0xff15, 0xff1f, 0xff27}).Draw(rt, "unmapped"))
+			return []c06Op{w, {K: "w", A: u, V: rapid.Byte().Draw(rt, "uv")}, {K: "r", A: alias(rt, w.A)}, {K: "r", A: u}}
 		case 14, 15:
 			w := writeGen.Draw(rt, "w")
 			return []c06Op{w, runGen.Draw(rt, "run"), {K: "r", A: alias(rt, w.A)}}
@@ -785,7 +794,7 @@ func c06GenCase(rt *rapid.T) c06Case {
 			return []c06Op{{K: "w", A: a, V: v}, {K: "r", A: a}}
 		}
 	})
-	cas := c06Case{Cart: rapid.SampledFrom([]uint8{0x00, 0x03, 0x1b}).Draw(rt, "cart")}
+	cas := c06Case{Cart: rapid.SampledFrom([]uint8{0x00, 0x03, 0x1b}).Draw(rt, "cart"), CGB: rapid.SampledFrom([]uint8{0x00, 0x00, 0x80, 0xc0}).Draw(rt, "cgb-flag")}
 	if rapid.IntRange(0, 3).Draw(rt, "start-lcd-off") != 0 {
 		cas.Ops = append(cas.Ops, c06Op{K: "w", A: 0xff40, V: rapid.Byte().Draw(rt, "lcdc") &^ 0x80})
 	}
